@@ -1,6 +1,7 @@
 /- driver for C11 (dimensional collapse), Float instantiation of Model/Collapse -/
 import MysticVerif.Basic.Proto
 import MysticVerif.Model.Collapse
+import MysticVerif.Model.CollapseApply
 
 namespace MysticVerif.DrvC11
 open MysticVerif MysticVerif.Clps
@@ -174,6 +175,16 @@ def handle : Handler
     let some reps := (kw? args "reports").bind Val.asList? |>.bind (·.mapM Val.asNats?) | return "bad-op"
     let r := Loop.run n mask reps
     return s!"ok rounds={r.1} mask={pNs r.2}"
+  | .sym "tie" :: args => Id.run do
+    -- an applied CollapseAs collapse: tools.connected on the pairs in the real iteration order + the tie phase of
+    -- impose_as on one parameter vector
+    let some ps := (kw? args "pairs").bind Val.asList? |>.bind (·.mapM fun
+        | .list [a, b] => do pure (← a.asNat?, ← b.asNat?)
+        | _ => none) | return "bad-op"
+    let some x := (kw? args "x").bind Val.asFloats? | return "bad-op"
+    let groups := connected ps
+    let gs := "(" ++ " ".intercalate (groups.map fun g => s!"({g.1} {pNs g.2})") ++ ")"
+    return s!"ok groups={gs} nobridge={pB (noBridge ps)} grown={pB (oneComponentOrder ps)} y={pFs (tieAll groups x)}"
   | _ => "bad-op"
 
 end MysticVerif.DrvC11
